@@ -215,13 +215,34 @@ def canon_completed(content, plan):
     return content
 
 
-def run(plan, tier="quick") -> RunResult:
+class _NoPool:
+    """stand-in used by the real-loky fidelity self-test: installs nothing"""
+
+    delivered = []
+    done_sizes = []
+    steps = 0
+    time = 0.0
+    reordered = False
+
+    def __init__(self, n):
+        self.submitted = n
+
+    def __enter__(self):
+        return self
+
+    def __exit__(self, *a):
+        return False
+
+
+def run(plan, tier="quick", real_pool=False) -> RunResult:
     res = RunResult()
     root = simos.make_sandbox("c14")
     sim = simos.SimOS(root, dir_order=plan["dir_order"])
     sql = simsql.SimSql(sim)
     pool = simexec.SimPool(Choices(plan["choices"]), cpu_count=plan["cpu_count"],
                            durations=plan["durations"], services=plan["services"])
+    if real_pool:
+        pool = _NoPool(len(plan["inputs"]))
     res.config = "parallel" if plan["parallel"] else "serial"
     idc = "" if plan["idclass"] == "plain" else f":{plan['idclass']}"
     wr = plan["writer"]
@@ -356,6 +377,12 @@ def run(plan, tier="quick") -> RunResult:
                 else:
                     view, dups = record_view(result, plan)
                     live_keys = set(view)
+                    # what a user can observe, for the run digest (cross hash seed comparison)
+                    res.observed = sorted(
+                        (k, kind, (repr(canon_completed(c, plan)) if kind == "completed"
+                                   else repr(nc_fields(c, plan))).replace(root, "<root>"))
+                        for k, (kind, c) in view.items()
+                    )
                     # also through a fresh handle
                     if hasattr(result, "close"):
                         result.close()
@@ -441,6 +468,7 @@ def run(plan, tier="quick") -> RunResult:
         res.shapes.append(hashlib.sha256(shape.encode()).hexdigest()[:16])
     h = hashlib.sha256("\n".join(sim.event_lines(sizes=False)).encode())
     h.update(repr(pool.delivered).encode())
+    h.update(repr(getattr(res, "observed", None)).encode())
     h.update(repr(sorted(v.cls for v in res.violations)).encode())
     res.digest = h.hexdigest()
     res.sample = describe(plan)
@@ -474,6 +502,9 @@ MINIMISE_KW = {"protect": ("engine", "idclass", "stem", "kind", "tag", "writer",
                            "dir_order", "mode"),
                "list_keys": ("inputs", "steps", "choices", "durations", "services"),
                "budget_s": 40.0, "max_tries": 150}
+
+# the first N runs are repeated in interpreters with another PYTHONHASHSEED
+CROSS_HASHSEED = 240
 
 EVIDENCE = {
     "rule": (
